@@ -76,7 +76,23 @@ def gen(rng, tier, index):
 class ToolError(Exception):
     pass
 
+class Hang(Exception):
+    pass
+
 def run_tool(mod, args):
+    if mod is rzxplay and '--python' not in args:
+        # the C frame loop cannot be interrupted from Python: run it in a child that can be killed
+        from .harness import in_child, ChildKilled
+        try:
+            r = in_child(lambda: _run_tool(mod, args), 45)
+        except ChildKilled:
+            raise Hang('rzxplay%r (C engine) did not return within 45 s and was killed' % (args,))
+        if r[0] == 'exc':
+            raise ToolError(r[2])
+        return r[1]
+    return _run_tool(mod, args)
+
+def _run_tool(mod, args):
     del _captured[:]
     out = io.StringIO()
     try:
@@ -312,6 +328,10 @@ def run(scn):
     wd = build.workdir()
     try:
         return _run(scn, res, wd)
+    except Hang as e:
+        res['discard'] = 'HANG: C playback did not return and was killed'
+        res['detail'] = str(e)
+        return res
     finally:
         shutil.rmtree(wd, ignore_errors=True)
 
